@@ -462,6 +462,81 @@ Elem *env_copy__FI_FI_pE (struct FwdIt first, struct FwdIt last, Elem *d)
   return d + range_assign (d, first.cur, n, 0, 0, ASSIGN_COPY_MAY_THROW || ITER_MAY_THROW, K_ASSIGN_COPY);
 }
 
+/* ---- comparison algorithms on two containers (C16): std::equal, std::lexicographical_compare, std::remove ----------------
+ * The result of comparing two element sequences is an uninterpreted boolean, constrained only by what the watched cells show
+ * (elements are equal iff their abstract values are equal: assumed of T's operator== / operator<); the call's arguments are
+ * recorded so that the contracts can say WHICH ranges were compared, in which order.  Layout of the header's iterator
+ * (one pointer member m_ptr) is a must-fire assumption: a different layout in the generated model fails to link. */
+struct svcit { const Elem *m_ptr; };
+struct svit { Elem *m_ptr; };
+const Elem *CMP_F1, *CMP_L1, *CMP_F2, *CMP_L2; int CMP_KIND; _Bool CMP_RESULT; unsigned long cmp_calls; Elem *REM_RESULT;
+#define CMP_LIVE1(i) __CPROVER_assert (!((IN_PTRS (WP[i], f1.m_ptr, l1.m_ptr) || IN_PTRS (WP[i], f2.m_ptr, e2)) && (RAW (i) || WS[i] == S_MF)), "[C03,C16] comparison reads an element that is not live (or was moved from)");
+#define SAME_IDX(a, fa, b, fb) (OFF (WP[a]) - OFF (fa) == OFF (WP[b]) - OFF (fb))
+
+_Bool env_equal__svcit_svcit_svcit (struct svcit f1, struct svcit l1, struct svcit f2)
+{
+  __CPROVER_assert (f1.m_ptr == l1.m_ptr || (SAMEOBJ (f1.m_ptr, l1.m_ptr) && OFF (f1.m_ptr) <= OFF (l1.m_ptr) && ALIGNED (OFF (l1.m_ptr) - OFF (f1.m_ptr))), "[C16] std::equal: [first1, last1) is not a valid range");
+  unsigned long nbytes = (f1.m_ptr == l1.m_ptr) ? 0 : OFF (l1.m_ptr) - OFF (f1.m_ptr);
+  __CPROVER_assert (nbytes == 0 || (__CPROVER_r_ok (f1.m_ptr, nbytes) && __CPROVER_r_ok (f2.m_ptr, nbytes)), "[C03,C16] std::equal reads outside the elements of one of the containers");
+  const Elem *e2 = nbytes == 0 ? f2.m_ptr : (const Elem *) ((const char *) f2.m_ptr + nbytes);
+  FORALLW (CMP_LIVE1)
+  cmp_calls++; CMP_KIND = CMP_EQUAL; CMP_F1 = f1.m_ptr; CMP_L1 = l1.m_ptr; CMP_F2 = f2.m_ptr; CMP_L2 = e2;
+  if (COMPARE_MAY_THROW && nondet_bool ()) { THROW (EXC_ELEMENT); return nondet_bool (); }
+  _Bool r = nondet_bool ();
+  if (nbytes == 0) r = 1;
+  /* element-consistency: a watched pair at the same index with different values makes the ranges unequal */
+  if (nbytes != 0 && IN_PTRS (WP[0], f1.m_ptr, l1.m_ptr) && IN_PTRS (WP[1], f2.m_ptr, e2) && SAME_IDX (0, f1.m_ptr, 1, f2.m_ptr) && WS[0] != WS[1]) r = 0;
+  if (nbytes != 0 && IN_PTRS (WP[1], f1.m_ptr, l1.m_ptr) && IN_PTRS (WP[0], f2.m_ptr, e2) && SAME_IDX (1, f1.m_ptr, 0, f2.m_ptr) && WS[0] != WS[1]) r = 0;
+  CMP_RESULT = r;
+  return r;
+}
+
+_Bool env_lexicographical_compare__svcit_svcit_svcit_svcit (struct svcit f1, struct svcit l1, struct svcit f2, struct svcit l2)
+{
+  __CPROVER_assert (f1.m_ptr == l1.m_ptr || (SAMEOBJ (f1.m_ptr, l1.m_ptr) && OFF (f1.m_ptr) <= OFF (l1.m_ptr) && ALIGNED (OFF (l1.m_ptr) - OFF (f1.m_ptr))), "[C16] std::lexicographical_compare: [first1, last1) is not a valid range");
+  __CPROVER_assert (f2.m_ptr == l2.m_ptr || (SAMEOBJ (f2.m_ptr, l2.m_ptr) && OFF (f2.m_ptr) <= OFF (l2.m_ptr) && ALIGNED (OFF (l2.m_ptr) - OFF (f2.m_ptr))), "[C16] std::lexicographical_compare: [first2, last2) is not a valid range");
+  unsigned long n1 = (f1.m_ptr == l1.m_ptr) ? 0 : OFF (l1.m_ptr) - OFF (f1.m_ptr), n2 = (f2.m_ptr == l2.m_ptr) ? 0 : OFF (l2.m_ptr) - OFF (f2.m_ptr);
+  __CPROVER_assert ((n1 == 0 || __CPROVER_r_ok (f1.m_ptr, n1)) && (n2 == 0 || __CPROVER_r_ok (f2.m_ptr, n2)), "[C03,C16] std::lexicographical_compare reads outside the elements of one of the containers");
+  const Elem *e2 = l2.m_ptr;
+  FORALLW (CMP_LIVE1)
+  cmp_calls++; CMP_KIND = CMP_LEXLESS; CMP_F1 = f1.m_ptr; CMP_L1 = l1.m_ptr; CMP_F2 = f2.m_ptr; CMP_L2 = l2.m_ptr;
+  if (COMPARE_MAY_THROW && nondet_bool ()) { THROW (EXC_ELEMENT); return nondet_bool (); }
+  _Bool r = nondet_bool ();
+  if (n2 == 0) r = 0;                     /* nothing is less than the empty sequence */
+  else if (n1 == 0) r = 1;                /* the empty sequence is less than every non-empty one */
+  CMP_RESULT = r;
+  return r;
+}
+
+/* std::remove (first, last, value): returns r in [first, last]; [first, r) holds the kept elements (in order, [alg.remove]: assumed),
+   [r, last) live elements with unspecified (moved-from) values */
+struct svit env_remove__svit_svit_pcE (struct svit first, struct svit last, const Elem *value)
+{
+  struct svit res; res.m_ptr = last.m_ptr;
+  __CPROVER_assert (first.m_ptr == last.m_ptr || (SAMEOBJ (first.m_ptr, last.m_ptr) && OFF (first.m_ptr) <= OFF (last.m_ptr) && ALIGNED (OFF (last.m_ptr) - OFF (first.m_ptr))), "[C16] std::remove: [first, last) is not a valid range");
+  unsigned long nbytes = (first.m_ptr == last.m_ptr) ? 0 : OFF (last.m_ptr) - OFF (first.m_ptr);
+  __CPROVER_assert (__CPROVER_r_ok (value, ESZ), "[C03,C16] std::remove: the value is not readable");
+  cmp_calls++; CMP_KIND = CMP_REMOVE; CMP_F1 = first.m_ptr; CMP_L1 = last.m_ptr; CMP_F2 = value; CMP_L2 = 0;
+  if (nbytes == 0) { REM_RESULT = last.m_ptr; return res; }
+  __CPROVER_assert (__CPROVER_w_ok (first.m_ptr, nbytes), "[C03,C16] std::remove writes outside the container's elements");
+#define REM_LIVE1(i) __CPROVER_assert (!(IN_PTRS (WP[i], first.m_ptr, last.m_ptr) && RAW (i)), "[C03,C16] std::remove reads storage that holds no live element");
+  FORALLW (REM_LIVE1)
+  if ((COMPARE_MAY_THROW || ASSIGN_MOVE_MAY_THROW) && nondet_bool ())
+    {
+      /* a throwing comparison / move assignment: elements stay live, values unspecified */
+#define REM_HAVOC1(i) if (IN_PTRS (WP[i], first.m_ptr, last.m_ptr)) { int v = nondet_value (); WS[i] = v; }
+      FORALLW (REM_HAVOC1)
+      THROW (EXC_ELEMENT); REM_RESULT = last.m_ptr; return res;
+    }
+  unsigned long keep = nondet_ulong ();
+  __CPROVER_assume (keep <= DIVESZ (nbytes));
+  /* a watched element equal to the value cannot be kept at its own place ... the permutation itself is the algorithm's assumed specification */
+  FORALLW (REM_HAVOC1)
+  used_kinds |= K_ASSIGN_MOVE;
+  res.m_ptr = first.m_ptr + keep; REM_RESULT = res.m_ptr;
+  return res;
+}
+
 /* generator: the k-th call yields the abstract value GEN_BASE + k */
 int GEN_BASE;
 void env_op_call__pG_out (struct Gen *g, Elem *out)
